@@ -72,9 +72,9 @@ ON_INFO = ["assert [C02,C16,C17] args[0] is sig.test_info", "assert [C02] args[1
 def nonce_check(cls, last, self_fields):
   body_end = [("C16", "g_sets == 1"), ("C16", "g_name == self.check_name"), ("C16", "g_sev == self.severity"),
               ("C02", "g_res == g_attached"), ("C02,C17", f"g_res == dict_has(issuer_dlogs, _i{last})")]
-  loops = {0: dict(cut=True, cases=True, invariant=list(INV)),
+  loops = {0: dict(cut=True, cases=True, invariant=list(INV), independent=True),
            1: dict(abstract=True, types={"guesses": "opaque"}),
-           last: dict(invariant=list(INV), head=list(HEAD), body_end=body_end,
+           last: dict(independent=True, invariant=list(INV), head=list(HEAD), body_end=body_end,
                       keep={"curve", "curve_id", "sigs", "pks", "issuer_dlogs", "guesses"})}
   ns = dict(params={"artifacts": "list[ref:ECDSASignature]"}, returns="bool", self_fields=dict(SELF_BASE, **self_fields),
             requires=list(REQ_SELF), entry_ghost=list(ENTRY), loops=loops,
